@@ -237,7 +237,7 @@ def direct_oracles(case, plines, widths):
 
 def tier_params(tier):
     if tier == 'thorough':
-        return dict(n_random=260, n_exh=3, n_rand_inputs=16, edge_inputs=60, max_alpha=4, per_crate=14, ctor_inputs=12, clone_inputs=8,
+        return dict(n_random=900, n_exh=3, n_rand_inputs=30, edge_inputs=80, max_alpha=4, per_crate=16, ctor_inputs=12, clone_inputs=8,
                     double_expand=10 ** 6, long_input=20000)
     return dict(n_random=45, n_exh=2, n_rand_inputs=8, edge_inputs=30, max_alpha=4, per_crate=10, ctor_inputs=5, clone_inputs=3,
                 double_expand=24, long_input=3000)
